@@ -184,10 +184,17 @@ def coq_q(fr):
     return "(%d / %d)" % (n, d) if n >= 0 else "((%d) / %d)" % (n, d)
 
 
+SUBST = {}    # key of an expression -> Coq text printed instead (named sub-definitions)
+
+
 def shallow(e, idx=None):
     """Coq term of type R.  `idx`: names printed as applications to the
     component index k."""
     idx = idx or ()
+    if SUBST:
+        k = e.key()
+        if k in SUBST:
+            return SUBST[k]
     o = e.op
     if o == "const":
         return coq_q(e.val)
